@@ -32,6 +32,15 @@ def lookup(path, info):
     m = re.match(r"core::num::<impl ([iu](?:8|16|32|64|128|size))>::(\w+)$", path)
     if m:
         return num_method(m.group(1), m.group(2))
+    m = re.match(r".*<impl std::convert::From<(\w+)> for (\w+)>::from$", path)
+    if m and m.group(1) in solver.INT_RANGES and m.group(2) in solver.INT_RANGES:
+        rs, rd = solver.INT_RANGES[m.group(1)], solver.INT_RANGES[m.group(2)]
+        if rs[0] >= rd[0] and rs[1] <= rd[1]:
+            return a_from_id          # lossless integer widening
+    m = re.match(r".*<impl std::convert::TryFrom<(\w+)> for (\w+)>::try_from$", path)
+    if m and m.group(1) in solver.INT_RANGES and m.group(2) in solver.INT_RANGES:
+        dst = m.group(2)
+        return lambda ev, st, info, args, dst=dst: try_from_int(ev, st, info, args, dst)
     return None
 
 
@@ -659,6 +668,13 @@ def num_method(ty, name):
         def f(ev, st, info, args):
             es = seq_elems(args[0], width)
             v = T.mk_be(es) if name == 'from_be_bytes' else T.mk_le(es)
+            # be(byte_{n-1}(x), .., byte_0(x)) is x when x fits in n bytes on this path
+            if v[0] in ('be', 'le') and all(b[0] == 'byte' and b[2] == v[1][0][2] for b in v[1]):
+                x = v[1][0][2]
+                order = [b[1] for b in v[1]]
+                want = list(range(width - 1, -1, -1)) if v[0] == 'be' else list(range(width))
+                if order == want and solver.entails(st.pc, T.band_bool(T.ge0(x), T.ge0(T.sub(I(256 ** width - 1), x)))):
+                    v = x
             if ty.startswith('i') and v[0] != 'int':
                 v = ('call', 'signed:' + ty, (v,))
             return [(st, v)]
